@@ -1,3 +1,4 @@
+import DDP.Impl.ExprLadder
 import DDP.Spec.Eval
 
 /-!
@@ -281,3 +282,54 @@ example : (run { structs := [], funcs := [],
           = "7\nfalsch\n5\n" := by decide +kernel
 
 end DDP.Spec
+
+namespace DDP.Ladder
+open DDP.Generated.Ladder
+
+/-! ## Precedence and associativity as the parser has them now (over the ladder regenerated from expressions.go) -/
+
+/-- the rungs exist in the documented order (each one's number is its precedence) -/
+theorem ladder_order : ladder.map (·.name) = expectedOrder := by decide
+
+/-- ten rungs are left-associative chains whose operands all come from the next tighter rung:
+`a op b op c` is `(a op b) op c`, and an operand with a looser operator needs parentheses -/
+theorem left_chains : leftChains.all (fun (n, next) => (rung? n).any (isLeftChain · next)) = true := by decide
+
+/-- consecutive chain rungs are consecutive on the ladder: there is no rung between an operator and its operands -/
+theorem chains_are_consecutive :
+    leftChains.all (fun (n, next) => (level n).bind (fun i => (level next).map (· == i + 1)) == some true) = true := by decide
+
+/-- every operator is built on its documented rung, and on no looser one -/
+theorem op_precedence : expectedOps.all (fun (op, r) => (buildersOf op).head? == some r ||
+      -- `nicht` is also built by `kein(e) T` on the equality rung, around the type test it negates
+      (op == "UN_NOT" && buildersOf op == ["equality", "unary"])) = true := by decide
+
+/-- no operator of the parser is missing from the table -/
+theorem ops_complete : (ladder.flatMap (·.ops)).all (fun op => (expectedOps.map Prod.fst).contains op) = true := by decide
+
+/-- the token (sequence) that announces each operator family -/
+theorem loop_tokens : expectedLoopToks.all (fun (n, toks) => (rung? n).any (fun r => r.loops.map (·.toks) == [toks])) = true := by decide
+
+/-- `entweder a, oder b` and the sign `-a` are prefix forms: they return after one application, there is no chain to associate -/
+theorem prefix_forms : (rung? "boolXOR").any isPrefixForm = true ∧ (rung? "negate").any isPrefixForm = true ∧
+    (rung? "negate").map (·.calls) = some ["negate", "power"] := by decide
+
+/-- `a, falls c, ansonsten b`: the first operand is an `entweder`-level expression, condition and alternative are whole
+`falls` expressions again (right nested) -/
+theorem falls_shape : (rung? "ifExpression").map (fun r => (r.calls, r.loops.map (·.calls))) =
+    some (["boolXOR", "ifExpression"], [["ifExpression"]]) := by decide
+
+/-- `hoch` takes a postfix-level left operand and a whole unary expression as exponent, chained to the left -/
+theorem power_shape : (rung? "power").map (fun r => r.loops.map (fun l => (l.toks, l.calls, l.rebinds))) =
+    some [(["HOCH"], ["unary"], true)] := by decide
+
+/-- unary operators apply to unary expressions (so `nicht nicht a`, `der Betrag von -a` need no parentheses) and give way
+to `negate` otherwise -/
+theorem unary_shape : (rung? "unary").map (·.calls) = some ["alias", "power", "negate", "unary"] := by decide
+
+/-- the numbers the program generator prints minimal parentheses with (`P_FALLS` = 1 … `P_PRIMARY` = 20) -/
+theorem generator_levels : level "ifExpression" = some 1 ∧ level "boolOR" = some 3 ∧ level "equality" = some 8 ∧
+    level "term" = some 11 ∧ level "factor" = some 12 ∧ level "unary" = some 13 ∧ level "negate" = some 14 ∧
+    level "power" = some 15 ∧ level "primary" = some 20 := by decide
+
+end DDP.Ladder
